@@ -281,35 +281,44 @@ def _get_path(grid, obj, paths):
         return NOT_FOUND
 
 
-def _generate_filter_in_python(node, def_filter):
+def _generate_filter_in_python(node, def_filter, consts=None):
+    if consts is None:
+        consts = []
     if isinstance(node, FilterPath):
         def_filter.append("_get_path(_grid, _entity, %s)" % node.path)
     elif isinstance(node, FilterBinary):
         def_filter.append("(")
-        def_filter.extend(_generate_filter_in_python(node.left, []))
+        def_filter.extend(_generate_filter_in_python(node.left, [], consts))
         def_filter.append(" " + node.op + " ")
-        def_filter.extend(_generate_filter_in_python(node.right, []))
+        def_filter.extend(_generate_filter_in_python(node.right, [], consts))
         def_filter.append(")")
     elif isinstance(node, FilterUnary):
         if node.op == "has":
             def_filter.append('(id(')
-            def_filter.extend(_generate_filter_in_python(node.right, []))
+            def_filter.extend(_generate_filter_in_python(node.right, [], consts))
             def_filter.append(') !=  id(NOT_FOUND))')
         elif node.op == "not":
             def_filter.append('(id(')
-            def_filter.extend(_generate_filter_in_python(node.right, []))
+            def_filter.extend(_generate_filter_in_python(node.right, [], consts))
             def_filter.append(") == id(NOT_FOUND))")
         else:  # pragma: no cover
             assert 0
     else:
-        def_filter.append(repr(node))
+        # A literal value.  It is data: hand the object itself to the
+        # generated function, never its repr() as source text (the repr of an
+        # XStr is `type("data")`, which would *call* whatever the filter named).
+        consts.append(node)
+        def_filter.append("_consts[%d]" % (len(consts) - 1))
     return def_filter
 
 
 class _FnWrapper():
-    def __init__(self, fun_name, function_template):
+    def __init__(self, fun_name, function_template, consts=None):
         self.fun_name = fun_name
         exec(function_template, globals(), globals())
+        if consts is not None:
+            # The literal values of the filter, see _generate_filter_in_python
+            globals()[fun_name].__defaults__ = (tuple(consts),)
 
     def __del__(self):  # pragma: no cover
         del globals()[self.fun_name]  # Remove generated function if the LRU ask that
@@ -320,12 +329,13 @@ class _FnWrapper():
 @lru_cache(maxsize=FILTER_CACHE_LRU_SIZE)
 def _filter_function(filter):
     global _id_function
-    def_filter = _generate_filter_in_python(parse_filter(filter)._head, [])
+    consts = []
+    def_filter = _generate_filter_in_python(parse_filter(filter)._head, [], consts)
     fun_name = "_gen_hsfilter_" + str(_id_function)
-    function_template = "def %s(_grid, _entity):\n  return " % fun_name + "".join(def_filter)
+    function_template = "def %s(_grid, _entity, _consts=()):\n  return " % fun_name + "".join(def_filter)
     print("\nGenerate:\n# " + filter + "\n" + function_template)  # FIXME: debug
     _id_function += 1
-    return _FnWrapper(fun_name, function_template)
+    return _FnWrapper(fun_name, function_template, consts)
 
 
 def filter_function(filter):
